@@ -423,7 +423,7 @@ func mapOrder(c *engine.Ctx, id string, pkgs []string) {
 								if ix, ok := ast.Unparen(l).(*ast.IndexExpr); ok && isOuter(ix.X) {
 									o.Eval(1)
 									if !own(ix.Index, subst) {
-										o.Fail(&engine.Violation{Key: fi.Name() + "|range over a map|write of an outliving map at another key" + via,
+										o.Fail(&engine.Violation{Key: c.P.KeyOwner(fi) + "|range over a map|write of an outliving map at another key" + via,
 											Pos: c.P.Pos(y.Pos()), Func: fi.Name(),
 											Msg: "inside the range over the map " + types.ExprString(rs.X) + " the collection " + types.ExprString(ix.X) + " is written at key " + types.ExprString(ix.Index) + via + ", which is not the iteration's own key: the result depends on map iteration order"})
 									}
@@ -433,7 +433,7 @@ func mapOrder(c *engine.Ctx, id string, pkgs []string) {
 							if id, ok := y.Fun.(*ast.Ident); ok && id.Name == "delete" && len(y.Args) == 2 && isOuter(y.Args[0]) {
 								o.Eval(1)
 								if !own(y.Args[1], subst) {
-									o.Fail(&engine.Violation{Key: fi.Name() + "|range over a map|delete of another entry of an outliving map" + via,
+									o.Fail(&engine.Violation{Key: c.P.KeyOwner(fi) + "|range over a map|delete of another entry of an outliving map" + via,
 										Pos: c.P.Pos(y.Pos()), Func: fi.Name(),
 										Msg: "inside the range over the map " + types.ExprString(rs.X) + " an entry of " + types.ExprString(y.Args[0]) + " other than the iteration's own (" + types.ExprString(y.Args[1]) + ")" + via + " is deleted: the result depends on map iteration order"})
 								}
@@ -486,7 +486,11 @@ func mapOrder(c *engine.Ctx, id string, pkgs []string) {
 						id, ok := ast.Unparen(x).(*ast.Ident)
 						return ok && mapParams[target.Pkg.TypesInfo.Uses[id]]
 					}
-					check(target.Decl.Body, subst, isParamMap, " (in "+target.Name()+")")
+					via := " (in " + target.Name() + ")"
+					if engine.IsNewHelper(target) {
+						via = "" // an extracted block is still part of this function: same construct, same key
+					}
+					check(target.Decl.Body, subst, isParamMap, via)
 					return true
 				})
 				return true
